@@ -383,9 +383,8 @@ def holds_iff_nonempty(cs, aliases):
     for conj in cs:
         lits = []
         for (t, p) in conj:
-            try:
-                e = ast.parse(t, mode="eval").body
-            except SyntaxError:
+            e = parse_literal(t)
+            if e is None:
                 return False
 
             class R(ast.NodeTransformer):
